@@ -558,6 +558,26 @@ class Sim:
                 raise HarnessError("watchdog: shell reaches no hook (state %s, syscall %s)" % (
                     proc_state(self.shell_pid), proc_syscall(self.shell_pid)))
 
+    def wait_sigchld_handled(self):
+        """(handler mode, shell idle at its prompt) wait until a SIGCHLD just generated for the shell has been taken by
+        its handler and the shell is back reading the terminal: the next outside event then makes a notice of its own
+        instead of being merged with this one by the kernel"""
+        deadline = time.time() + WATCHDOG
+        while True:
+            pend = 0
+            try:
+                with open("/proc/%d/status" % self.shell_pid) as f:
+                    for l in f:
+                        if l.startswith("SigPnd:") or l.startswith("ShdPnd:"):
+                            pend |= int(l.split()[1], 16)
+            except OSError:
+                return
+            if not (pend & (1 << 16)) and proc_state(self.shell_pid) == "S" and self.tty_reading():
+                return
+            if time.time() > deadline:
+                raise HarnessError("watchdog: the shell does not come back to its prompt after SIGCHLD")
+            time.sleep(0.0003)
+
     def shell_go(self, reply="go"):
         if self.shell_pending is None:
             raise HarnessError("shell_go without a parked shell")
